@@ -19,13 +19,14 @@ TEXT = {
     'C09': ('exploration', 'E1 tcpcl_pair', 'seeded search over termination/close/fault points; history oracle + bounded liveness',
             'terminate/shutdown/close and peer death (FIN, RST, black-hole) are placed on history triggers inside transfers; oracle checks '
             'completion of in-progress transfers, SESS_TERM count and REPLY flag, reporting of unstarted transfers, and that both contacts '
-            'close within the horizon.', '5/C09'),
+            'close within the horizon. A fifth of the runs open two contacts between the same agents and shut the agent down (or terminate one contact) while the other is busy.', '5/C09'),
     'C14': ('exploration', 'E1 tcpcl_pair', 'seeded search on virtual time; negotiated values vs reference decode; timer deadlines on the wire',
             'Keepalive/idle/MRU pairs and traffic times are drawn; the simulator owns the clock so 65535 s timers cost nothing; KEEPALIVE spacing, '
             'idle-timeout SESS_TERM and closing of a silent terminating endpoint are judged on the wire tap against virtual time.', '5/C14'),
-    'C18': ('exploration', 'E1 tcpcl_pair + E6 udpcl_pair', 'seeded interleaving of D-Bus calls with protocol progress; marshalling model + sequential queue/idle model',
+    'C18': ('exploration', 'E1 tcpcl_pair + E2 scripted peer + E6 udpcl_pair + E5f full stack', 'seeded interleaving of D-Bus calls with protocol progress; marshalling model + sequential queue/idle model',
             'Every signal emission and method return is marshalled against its declared signature by a model of dbus-python checked against the real '
-            'binding; queue, pop and idle answers are compared with a sequential model at every call.', '5/C18'),
+            'binding; queue, pop, idle and connection-list answers are compared with a sequential model at every call; a scripted peer adds refusals and back-pressure, '
+            'file-based transfers and IPv6 hosts are included.', '5/C18'),
     'C07': ('exploration', 'E2 tcpcl_stream', 'seeded + windowed-exhaustive search over cut patterns of the TCP stream; reference decode of every delivered prefix',
             'One real agent reads a legal peer stream produced by the independent encoder; the variable is where the stream is cut into socket reads '
             '(single cuts, dribble, message boundaries +-1, random, all patterns over a 10-octet window). After each read the handled messages must '
@@ -38,7 +39,7 @@ TEXT = {
             'exception, listed message classes draw MSG_REJECT / SESS_TERM / close, no mixed data is delivered, own transfers complete and a later '
             'well-formed transfer is still processed.', '5/C17'),
     'C03': ('fault_enumeration', 'E5 bp_net (source + MITM link + destination)', 'enumeration of single-bit corruption and field rewrites in flight, classified by an independent AAD / MAC construction',
-            'The real source applies BIBs through its transmit chain (or a foreign source built by ref/bpsec_cose.py covers other AAD scopes); every bit of a window '
+            'The real source applies BIBs (COSE_Mac0, or COSE_Sign1 with an x5chain from a deterministic test PKI) through its transmit chain (or a foreign source built by ref/bpsec_cose.py covers other AAD scopes); every bit of a window '
             'of the encoding and every listed field is altered in flight, with CRC fix-up so the change reaches the verifier; the reference decoder classifies each '
             'altered copy as covered / surely-uncovered / other so the oracle is sound in both directions. No schedule or clock matters: the deciding dimension is the corruption fault.', '5/C03'),
     'C05': ('exploration', 'E5 bp_net (source and relay roles, twin node without MTU)', 'seeded search over sizes x MTUs x block sets x policy; reference decoder tiles the fragments',
@@ -47,7 +48,7 @@ TEXT = {
     'C06': ('exploration', 'E5 bp_net (destination role)', 'seeded search over fragmentations x arrival permutations, duplication and loss; interval-set model',
             'Fragments produced by the reference fragmenter (uniform, uneven, overlapping) arrive permuted, duplicated and interleaved across 1-3 originals; after each arrival an '
             'interval model says which originals are complete and the probe application must have seen exactly those, once, with the right payload and first-fragment blocks.', '5/C06'),
-    'C08': ('fault_enumeration', 'E5 bp_net', 'enumeration of single-bit flips and short bursts inside CRC-protected blocks; independent bitwise CRC',
+    'C08': ('fault_enumeration', 'E5 bp_net', 'enumeration of single-bit flips, short bursts and single-octet CBOR-head substitutions inside CRC-protected blocks; independent bitwise CRC',
             'For each generated bundle every bit of a window (whole bundle when small) is flipped and the sequence corrupt copy / clean copy / duplicate is received by one agent; '
             'a flip inside a CRC-protected block must leave no trace and the clean copy must then be processed exactly once; every transmitted bundle is re-decoded and its CRCs recomputed bitwise.', '5/C08'),
     'C10': ('exploration', 'E5 bp_net', 'seeded search over routing tables x receive histories with repeats and look-alikes; seen-set + first-match model',
@@ -61,10 +62,10 @@ TEXT = {
     'C13': ('exploration', 'E6 dgram_pair (udpcl)', 'seeded search over lengths x MTUs with datagram drop / duplicate / reorder / delay on virtual time; reference datagram decoder + interval model',
             'Two real UDPCL agents and a foreign reference peer exchange bundles over a simulated UDP network whose faults the chooser decides; pacing runs on the virtual clock; wire and receive queues are judged independently.', '5/C13'),
     'C16': ('fault_enumeration', 'E5 bp_net (source + MITM link + destination)', 'as C03 for confidentiality blocks: enumeration of bit flips / field rewrites, independent AES-GCM + AAD',
-            'The real source encrypts through its transmit chain; the wire must hold ciphertext that the independent construction decrypts; every altered copy of ciphertext, tag, IV or '
+            'The real source encrypts through its transmit chain (one or two targets, one or two associations; also foreign bundles with two confidentiality blocks); the wire must hold ciphertext that the independent construction decrypts; every altered copy of ciphertext, tag, IV or '
             'authenticated context, or a wrong key, must neither be delivered nor release plaintext.', '5/C16'),
     'C19': ('exploration', 'E5 bp_net', 'seeded search over report flags x report-to x outcomes; reference status-report decoder',
-            'All flag combinations and outcomes (deliver, forward, forward with fragmentation, delete, no route, security failure, duplicate) are run; every administrative bundle leaving the node is decoded independently and matched to its subject.', '5/C19'),
+            'All flag combinations and outcomes (deliver, forward, forward with fragmentation, forward that cannot fit or that the convergence layer refuses, delete, no route, security failure, duplicate) are run; every administrative bundle leaving the node is decoded independently and matched to its subject.', '5/C19'),
     'C20': ('exploration', 'E7 dgram_pair (btpu)', 'seeded search over lengths x MTUs with frame reorder / duplicate / delay (beyond the receive timeout) / drop; reference codec + repo codec round trip',
             'Two real BTP-U agents and a foreign peer share a simulated Ethernet; every frame is decoded by the reference codec and by the repository codec and re-encoded; delivery is demanded when each segment '
             'arrived once with gaps below the documented receive timeout.', '5/C20'),
@@ -115,7 +116,7 @@ def main():
         engines=[
             dict(name='E1 tcpcl_pair', path='scenarios/tcpcl_pair.py', serves_properties=['C01', 'C04', 'C09', 'C14', 'C18'],
                  kind_free_text='two real tcpcl agents over simulated TCP + scripted D-Bus users'),
-            dict(name='E2/E3 tcpcl_peer', path='scenarios/tcpcl_peer.py', serves_properties=['C07', 'C17'],
+            dict(name='E2/E3 tcpcl_peer', path='scenarios/tcpcl_peer.py', serves_properties=['C07', 'C17', 'C18'],
                  kind_free_text='one real tcpcl agent facing a harness-driven peer built on the independent RFC 9174 codec'),
             dict(name='E4 tcpcl_tls', path='scenarios/tcpcl_tls.py', serves_properties=['C15'],
                  kind_free_text='E1 plus TLS stub and real X.509 certificate fixtures'),
@@ -123,6 +124,8 @@ def main():
                  kind_free_text='1-3 real bp agents (all applications, probe app at order 29, simcl adaptor) with MITM-capable links and per-node clocks'),
             dict(name='E6/E7 dgram_pair', path='scenarios/dgram_pair.py', serves_properties=['C13', 'C20', 'C18'],
                  kind_free_text='two real udpcl or btpu agents plus a foreign reference peer on a simulated datagram network'),
+            dict(name='E5f full_stack', path='scenarios/full_stack.py', serves_properties=['C18'],
+                 kind_free_text='on each of two hosts a real bp agent, the real bp.cla UDPCL adaptor and a real udpcl agent joined by the simulated D-Bus'),
         ],
         checks=checks,
         not_applicable=na,
